@@ -16,7 +16,7 @@ def random_rotation(rng):
 
 def random_lattice(rng, family=None, rotate=None, scale=1.0):
     from pymatgen.core import Lattice
-    family = family or rng.choice(['cubic', 'orthorhombic', 'hexagonal', 'monoclinic', 'triclinic'])
+    family = family or rng.choice(['cubic', 'orthorhombic', 'hexagonal', 'monoclinic', 'triclinic', 'rhombohedral60'])
     if family == 'cubic':
         a = rng.uniform(4, 9)
         lat = Lattice.cubic(a)
@@ -24,6 +24,10 @@ def random_lattice(rng, family=None, rotate=None, scale=1.0):
         lat = Lattice.orthorhombic(*rng.uniform(4, 10, size=3))
     elif family == 'hexagonal':
         lat = Lattice.hexagonal(rng.uniform(4, 8), rng.uniform(5, 10))
+    elif family == 'rhombohedral60':
+        # strongly skewed: the nearest periodic image of a pair is often not the component-wise nearest one
+        a = rng.uniform(6, 10)
+        lat = Lattice.from_parameters(a, a, a, 60, 60, 60)
     elif family == 'monoclinic':
         lat = Lattice.monoclinic(*rng.uniform(4, 9, size=3), rng.uniform(95, 120))
     else:
